@@ -40,6 +40,7 @@ def _case(draw):
     c = draw(_shape_case())
     c["zero_radius"] = draw(st.integers(0, 5)) == 0
     c["xs"] = draw(st.sampled_from([0.0, 0.0, 0.0, 0.0, -9.0, -6.0, -3.0, 3.0, 6.0]))
+    c["nudge"] = draw(st.sampled_from([None, None, None, 1e-9, 1e-10, 1e-12]))
     c["attrs"] = draw(st.lists(st.sampled_from(["vertices", "volume", "area", "centroid", "radius", "normal", "faces", "a", "iq", "nope", "gsd_shape_spec"]),
                                min_size=0, max_size=4, unique=True))
     return c
@@ -103,7 +104,8 @@ def _run(case, rec):
     rec.label("cls:" + kind, "zero_radius" if zero_r else None)
     size = (2 * float(np.max(np.linalg.norm(obj.vertices - np.mean(obj.vertices, axis=0), axis=1)))) if has_v else 1.0
     off_origin = has_v and float(np.linalg.norm(np.mean(obj.vertices, axis=0))) >= size
-    rec.label("off_origin" if off_origin else None, "extreme_scale" if abs(case.get("xs", 0.0)) >= 6 and has_v else None)
+    rec.label("off_origin" if off_origin else None, "extreme_scale" if abs(case.get("xs", 0.0)) >= 6 and has_v else None,
+              "centroid_a_hair_off_origin" if case.get("nudge") and "cvx" in case else None)
     rec.nontrivial = bool(off_origin or zero_r or kind == "Polygon")
     # ---------------- GSD round trip
     spec = get(obj, "gsd_shape_spec")
@@ -391,6 +393,53 @@ def _gsd_fuzz(case, rec):
         rec.close("rounding_radius_kept", r.radius, spec["rounding_radius"], 0.0, sig)
 
 
+@st.composite
+def _far_case(draw):
+    return {"cvx": draw(zoo.convex3d(max_n=40)), "place": draw(zoo.placement(max_offset=0.0)), "far": draw(st.sampled_from([3.0, 4.0, 5.0, 6.0, 6.5])),
+            "kind": draw(st.sampled_from(["ConvexPolyhedron", "Polyhedron", "ConvexSpheropolyhedron"]))}
+
+
+def _gsd_far(case, rec):
+    """GSD and repr round trips are pure data transport: a solid 1e3..3e6 diameters from the origin (vertex spacing down to
+    1e-8 of the coordinates) comes back with exactly the vertices it went in with."""
+    V, _, _, _ = zoo.apply_placement(case["place"], zoo.build_convex(case["cvx"])["verts"])
+    D = 2 * float(np.max(np.linalg.norm(V - V.mean(axis=0), axis=1)))
+    V = V + 10.0 ** case["far"] * D * np.array([0.6, -0.64, 0.48])
+    kind = case["kind"]
+    sig = {"cls": kind, "far": "1e%g" % case["far"]}
+    rec.concrete = {"vertices": V}
+    rec.nontrivial = True
+    rec.label("cls:" + kind, "far:1e%g" % case["far"], "kind:" + case["cvx"]["kind"])
+    if kind == "ConvexPolyhedron":
+        obj = call(S.ConvexPolyhedron, V.copy())
+    elif kind == "Polyhedron":
+        obj = call(S.Polyhedron, V.copy(), [np.array(f_) for f_ in geom.convex_facets(V)[0]], True)
+    else:
+        obj = call(S.ConvexSpheropolyhedron, V.copy(), 0.1 * D)
+    if isinstance(obj, Raised):
+        rec.fail("construct", dict(sig, type=obj.type), msg=obj.msg)
+        return
+    spec = get(obj, "gsd_shape_spec")
+    if isinstance(spec, Raised):
+        rec.fail("gsd_shape_spec", dict(sig, type=spec.type), msg=spec.msg)
+        return
+    back = call(coxeter.from_gsd_type_shapes, copy.deepcopy(spec), 3)
+    if isinstance(back, Raised):
+        rec.fail("gsd_roundtrip_raised", dict(sig, type=back.type), msg=back.msg)
+        return
+    want_cls = {"Polyhedron": ("Polyhedron", "ConvexPolyhedron")}.get(kind, (kind,))
+    if rec.check(type(back).__name__ in want_cls, "gsd_same_class", dict(sig, got=type(back).__name__)):
+        bv = np.asarray(back.vertices, dtype=float)
+        same = bv.shape == V.shape and {tuple(x) for x in bv} == {tuple(x) for x in V}
+        rec.check(same, "gsd_vertices", sig, got=len(bv), want=len(V))
+    ev = call(eval, call(repr, obj), _ns())
+    if isinstance(ev, Raised):
+        rec.fail("repr_not_evaluable", dict(sig, type=ev.type), msg=ev.msg)
+    else:
+        ev_v = np.asarray(ev.vertices, dtype=float)
+        rec.check(ev_v.shape == V.shape and {tuple(x) for x in ev_v} == {tuple(x) for x in V}, "repr_vertices", sig)
+
+
 def fuzz_targets():
     seeds = [bytes([0, 4, 1, 64]), bytes([3, 129, 0, 16]), bytes([4, 193, 1, 0]), bytes([12, 255, 0, 9])]
     return [{"clause": "gsd_fuzz", "decoder": "gsd_dict", "runs_quick": 5000, "runs_thorough": 300000, "seeds": seeds, "max_len": 20}]
@@ -402,5 +451,7 @@ def clauses():
                floors={"unknown_or_missing_type": 0.2, "complete_spec": 0.05}),
         Clause("roundtrips", _case(), _run, quick=3600, thorough=25000, rule="gsd / repr / to_json / to_hoomd of generated shapes",
                floors={"off_origin": 0.05, "zero_radius": 0.01, "hoomd": 0.4}),
+        Clause("roundtrips_far_from_origin", _far_case(), _gsd_far, quick=600, thorough=6000,
+               rule="gsd / repr round trips of solids 1e3..3e6 diameters from the origin (vertex sets bit-for-bit)", floors={}),
         Clause("gsd_specs", _spec_case(), _spec, quick=1200, thorough=6000, rule="hand-built GSD dicts incl. malformed ones", floors={}),
     ]
